@@ -34,6 +34,10 @@ impl<'r> Data<'r> {
         }
     }
 
+    pub(crate) fn has_overflowing_cigar(&self) -> bool {
+        self.has_overflowing_cigar
+    }
+
     /// Returns a byte slice of the raw data.
     ///
     /// This is the data block as it is in the record. It includes the `CG` field when it is used
